@@ -31,15 +31,24 @@ RULE = ('(a) isolated pipeline: the real LuaFormatterWriter._get_code_for_spaces
         'vm_compute on the model itself (cross-check of extraction and glue).  One evaluation = one pipeline '
         'call compared, or one holds_C10 evaluation; distinct+non-trivial = distinct runs that contain a line break or a '
         'comment + distinct (program, layout pair) observations inside the domain of holds_C10')
-PARTIAL = ('whole-writer theorems (C10_indent, C10_reindent_invariant, C10_idempotent at program level) need the '
-           'LuaASTEchoWriter walk (Model/AstWriter.v, worker parser): until then they are observed by the monitor on real '
-           'luafmt output, not proved; proved and unbounded: every run-level statement about the white-space pipeline, and the '
-           'whole-output clauses relative to an abstract chunk list (C10_*_partial)')
+PARTIAL = ('proved at program level (parser trees inside the writer domain of C09_aligned, tidy token codes): C10_shape (no trailing '
+           'white space, no double blank line in the whole luafmt output), C10_indent_counter_partial (a code token that begins a '
+           'line is preceded by exactly indentwidth x n spaces, n >= 0 the writer nesting counter at its white-space run), C10_first_line '
+           '(what begins the first line of the output sits at column 0), '
+           'C10_indent_link (n = the reference depth token_depth of Spec/TokenDepth.v at the token the run ends at) and C10_indent '
+           '(a token that begins a line is preceded by exactly indentwidth x token_depth spaces) - the last two for trees without a '
+           'one-line if that has an else part and without a trailing table field separator (the counter is known to differ there; '
+           'C10_indent_trailing_sep_refuted); token_depth is a function of the INPUT token list (the rules of Spec/FmtShape.v restated '
+           'on lexer tokens, agreement lemmas tok_depth_at_agrees / tok_depth_after_agrees) - that re-reading the OUTPUT text gives the '
+           'same tokens and hence the same depth is observed by the monitor, not proved; NOT proved: '
+           're-indentation invariance and idempotence of whole programs (need the lexer on re-indented / written text); proved and '
+           'unbounded: every run-level statement about the white-space pipeline, the whole-output clauses relative to an abstract '
+           'chunk list (C10_*_partial)')
 ASSUMPTIONS = ['indentwidth is an integer (0-8 in the monitor domain); programs are those on which luafmt succeeds (C09 covers success)',
                'interior lines of multi-line block comments and long strings are token content, not layout: re-indentations leave them alone',
                'blank lines before the first line of the file are not "separating lines" (the output may start with up to two)']
 CLAIM = dict(
-    text=("Seventeen theorems in Properties/C10.v (Coq, closed under the global context) about fmt_run, the model of the 15-step re.sub "
+    text=("Twenty theorems in Properties/C10.v (Coq, closed under the global context) about fmt_run, the model of the 15-step re.sub "
           "pipeline of LuaFormatterWriter._get_code_for_spaces, for white-space/comment runs of EVERY length, every indent width and "
           "depth, at the start / middle / end of the file: C10_run_canonical_form (exact line-by-line form of the output), "
           "C10_run_depends_on_norm (runs equal modulo blanks at line edges are formatted identically: re-indentation invariance "
@@ -47,19 +56,32 @@ CLAIM = dict(
           "C10_run_no_trailing_blank, C10_run_blank_lines (never three line feeds in a row), C10_run_end_of_file, "
           "C10_run_keeps_comment_text (only white space moves), C10_run_idempotent (formatting a formatted run changes "
           "nothing); and four theorems about the whole output as a list of writer chunks (C10_indent_partial, C10_first_line_partial, "
-          "C10_shape_partial, C10_reindent_partial) that reduce the whole-program clauses to facts about the writer walk, and two about "
+          "C10_shape_partial, C10_reindent_partial) that reduce the whole-program clauses to facts about the writer walk, two about "
           "the model of the walk itself (Model/AstWriter.v): the nesting counter is balanced and never negative "
-          "(C10_walk_indent_balanced, C10_writer_indent_nonneg). Regex sources, guards, replacement expressions, order, and the whole function text "
+          "(C10_walk_indent_balanced, C10_writer_indent_nonneg), and two whole-program theorems for trees built by the parser model "
+          "inside the writer domain of C09_aligned with tidy token codes: C10_shape (the whole luafmt output has no line ending in a "
+          "blank and never three line feeds in a row) and C10_indent_counter_partial (every code token that begins a line is preceded "
+          "by exactly indentwidth x n spaces, n >= 0 the nesting counter at its white-space run), obtained by discharging the "
+          "hypotheses separated / codes_ok / no_end of the chunk theorems from the alignment proof (Proofs/AstWriterLines.v), likewise "
+          "C10_first_line (a prefix of the output that is blanks only, without a line feed, is empty); and, for trees "
+          "without a one-line if with an else part and without a trailing table field separator, C10_indent_link (every non-empty "
+          "white-space run handed to _get_code_for_spaces ends at a significant token i and is passed _indent = token_depth ts i, the "
+          "number of blocks and brackets open at token i of the input by the reference rules of Spec/FmtShape.v restated on lexer tokens "
+          "in Spec/TokenDepth.v) and C10_indent (a code token i that begins a line of the output is preceded by exactly indentwidth x "
+          "token_depth ts i spaces); proved by re-running the walk induction with the counter and the token-stream depth state threaded "
+          "(Proofs/TokenDepthProofs.v, WriterCursorD.v, AstWriterDepth.v). Regex sources, guards, replacement expressions, order, and the whole function text "
           "are regenerated from lua.py on every run and pinned. Tie: the extracted model equals the real method on ALL runs of length "
           "<= 5 (thorough 6) over {space,tab,\\n,\\r,-,/,a} x 4 positions x 3 (width,depth), on random long runs, and on every "
           "_get_code_for_spaces call made inside real luafmt runs on generated programs; the extracted holds_C10 (reference reader "
           "Spec/FmtShape.v: lines, code tokens, block/bracket depth) is evaluated on real luafmt output for program x re-indentations x "
           "widths 0-8: outputs equal, fmt(fmt)=fmt, indentation = width x depth on every code line, no trailing white space, no "
           "double blank line, no blank line at the end."),
-    note=("PARTIAL: the whole-program clauses (indentation = width x syntactic depth, re-indentation invariance and idempotence "
-          "of whole programs) are OBSERVED by the extracted monitor on real output, not proved: they need the model of the "
-          "LuaASTEchoWriter walk (worker parser): that luafmt's output is a separated chunk list whose indents equal the syntactic "
-          "depth; given that, C10_indent_partial / C10_shape_partial / C10_reindent_partial give the clauses. Three genuine "
+    note=("PARTIAL: indentation = width x syntactic depth is proved (C10_indent) with the depth computed on the INPUT tokens, outside "
+          "two exclusions (a one-line if with an else part anywhere in the program; a trailing table field separator - there the "
+          "statement is false: `x={1 / ,}` is written with the comma at column 0, C10_indent_trailing_sep_refuted, same on the real "
+          "luafmt); that the depth read back from the OUTPUT text is the same, re-indentation invariance and idempotence of whole "
+          "programs are OBSERVED by the extracted monitor on real output, not proved: they need the lexer on re-indented / written "
+          "text. Three genuine "
           "defects found by this check were fixed in picotool (fix: commits, findings/known_C10.json): white-space-only line / "
           "non-idempotence after an empty line inside a block; `//` comment lines kept their input indentation; a file without final "
           "newline got one only if blanks followed its last token. Trusted: Coq "
